@@ -140,8 +140,8 @@ def w_gro(m, lay, rng, variant):
     lines = [f"{m.title}, t= 12.500", f"{m.natom:5d}"]
     names, resn, resq = [], [], []
     for i, (s, r) in enumerate(zip(m.sym, m.xyz)):
-        names.append((s.upper() + str(i % 1000))[:5])
-        resn.append(["SOL", "WAT", "LIG"][i % 3])
+        names.append((s.upper() + str(i % 1000))[:5] if i % 4 != 2 else ["CMAB1", "HEME2", "OXT12"][i % 3])   # also names filling the five columns
+        resn.append(["SOL", "WAT", "LIG", "HEMEA", "POPC1"][i % 5])
         resq.append(1 + (i // 3) % 99999)
         lines.append(render_record(lay["gro_atom"], {"resnum": resq[-1], "resname": resn[-1], "atname": names[-1], "atnum": (i + 1) % 100000,
                                                       "x": r[0], "y": r[1], "z": r[2], "vx": vel[i, 0], "vy": vel[i, 1], "vz": vel[i, 2]}))
@@ -162,11 +162,11 @@ def w_crd(m, lay, rng, variant):
     lines = [f"* {m.title}", "* second title line", "*", f"{m.natom:5d}"]
     names, resn, resq, seg, rid = [], [], [], [], []
     for i, (s, r) in enumerate(zip(m.sym, m.xyz)):
-        names.append((s.upper() + str(i % 100))[:4])
+        names.append((s.upper() + str(i % 100))[:4] if i % 4 else ("CG2R", "OT12", "H123")[i % 3])     # also names filling the column
         resn.append(["ALA", "GLY", "TIP3"][i % 3])
         resq.append(1 + (i // 3) % 9999)
         seg.append(["PROT", "SOLV"][i % 2])
-        rid.append(1 + (i // 3) % 999)
+        rid.append(997 + (i // 3) % 9000)                                                             # three and four digits
         lines.append(render_record(lay["crd_atom"], {"atomno": (i + 1) % 100000, "resno": resq[-1], "resname": resn[-1], "type": names[-1],
                                                       "x": r[0], "y": r[1], "z": r[2], "segid": seg[-1], "resid": rid[-1], "weight": m.masses[i]}))
     exp = {"atcoords": m.xyz, "atmasses": m.masses, "atffparams.attypes": names, "atffparams.resnames": resn, "atffparams.resnums": resq,
@@ -179,7 +179,7 @@ def w_mol2(m, lay, rng, variant):
              "@<TRIPOS>ATOM"]
     types = []
     for i, (s, r) in enumerate(zip(m.sym, m.xyz)):
-        types.append(s + [".3", ".2", ".ar", ""][i % 4])
+        types.append(s + [".3", ".2", ".ar", ""][i % 4] if i % 5 != 3 else ["CG2R61", "CG2R64", "HGR61x", "OG311"][i % 4])   # force-field types of six characters
         lines.append(f"{i + 1:7d} {s + str(i + 1):<8s} {r[0]:10.4f} {r[1]:10.4f} {r[2]:10.4f} {types[-1]:<6s} {1:3d} LIG {m.charges[i]:10.4f}")
     lines.append("@<TRIPOS>BOND")
     code = {1: "1", 2: "2", 3: "3", 4: "ar"}
@@ -198,12 +198,22 @@ def _vasp_header(m, rng, variant):
             seen.append(z)
     for z in seen:
         order += [i for i in range(m.natom) if m.z[i] == z]
+    groups = [(z, sum(1 for x in m.z if x == z)) for z in seen]
+    if variant == "repeated":
+        # the same element may head several groups (O H O / 1 2 1): atoms stay in file order
+        order = list(range(m.natom))
+        groups = []
+        for z in m.z:
+            if groups and groups[-1][0] == z:
+                groups[-1] = (z, groups[-1][1] + 1)
+            else:
+                groups.append((z, 1))
     scale = 1.0 if variant != "scaled" else 1.25
     lines = [m.title, f"   {scale:.14f}"]
     for v in m.cell / scale:
         lines.append(f" {v[0]:21.16f} {v[1]:21.16f} {v[2]:21.16f}")
-    lines.append(" ".join(f"{SYMBOLS[z - 1]:>4s}" for z in seen))
-    lines.append(" ".join(f"{sum(1 for x in m.z if x == z):4d}" for z in seen))
+    lines.append(" ".join(f"{SYMBOLS[z - 1]:>4s}" for z, _n in groups))
+    lines.append(" ".join(f"{n_:4d}" for _z, n_ in groups))
     xyz = m.xyz[order]
     if variant in ("cartesian", "scaled"):
         lines.append("Cartesian")
@@ -259,7 +269,7 @@ def w_cube(m, lay, rng, variant):
     origin = [-1.25, 0.5, 2.125]
     axes = np.array([[0.5, 0.0, 0.01], [0.0, 0.625, 0.0], [0.02, 0.0, 0.75]])
     lines = [m.title, "OUTER LOOP: X, MIDDLE LOOP: Y, INNER LOOP: Z",
-             f"{m.natom:5d}" + "".join(f"{v:12.6f}" for v in origin)]
+             f"{m.natom:5d}" + "".join(f"{v:12.6f}" for v in origin) + (f"{1:5d}" if variant == "nval" else "")]   # optional NVal field
     for k in range(3):
         lines.append(render_record(lay["cube_axis"], {"n": shape[k], "x": axes[k, 0], "y": axes[k, 1], "z": axes[k, 2]}))
     q = [round(float(z) - 0.5 * (i % 2), 6) for i, z in enumerate(m.z)]
@@ -294,7 +304,10 @@ def w_fcidump(m, lay, rng, variant):
                     if i * (i + 1) // 2 + j >= k * (k + 1) // 2 + ll:
                         c += 1
                         v = round(0.25 + 0.0137 * c, 10)
-                        lines.append(f"{v:23.16E} {i + 1:4d} {j + 1:4d} {k + 1:4d} {ll + 1:4d}")
+                        idx = (i, j, k, ll)
+                        if variant == "upper":      # any of the eight equivalent index orders denotes the same integral
+                            idx = [(j, i, ll, k), (k, ll, i, j), (ll, k, j, i), (j, i, k, ll)][c % 4]
+                        lines.append(f"{v:23.16E} {idx[0] + 1:4d} {idx[1] + 1:4d} {idx[2] + 1:4d} {idx[3] + 1:4d}")
                         # (ij|kl) chemists' -> <ik|jl> physicists', with the eight-fold symmetry
                         for a, b, cc, d in ((i, j, k, ll), (j, i, k, ll), (i, j, ll, k), (j, i, ll, k), (k, ll, i, j), (ll, k, i, j), (k, ll, j, i), (ll, k, j, i)):
                             two[a, cc, b, d] = v
@@ -303,7 +316,7 @@ def w_fcidump(m, lay, rng, variant):
             c += 1
             v = round(-1.5 + 0.0173 * c, 10)
             one[i, j] = one[j, i] = v
-            lines.append(f"{v:23.16E} {i + 1:4d} {j + 1:4d} {0:4d} {0:4d}")
+            lines.append(f"{v:23.16E} {i + 1:4d} {j + 1:4d} {0:4d} {0:4d}" if variant != "upper" else f"{v:23.16E} {j + 1:4d} {i + 1:4d} {0:4d} {0:4d}")
     core = 7.0123456789
     lines.append(f"{core:23.16E} {0:4d} {0:4d} {0:4d} {0:4d}")
     exp = {"one_ints.core_mo": one, "two_ints.two_mo": two, "core_energy": core, "nelec": 2 * n - 1, "spinpol": 1}
@@ -415,7 +428,7 @@ def w_orcalog(m, lay, rng, variant):
         lines += ["", "--------------", "SCF ITERATIONS", "--------------",
                   "ITER       Energy         Delta-E        Max-DP      RMS-DP      [F,P]     Damp",
                   "               ***  Starting incremental Fock matrix formation  ***"]
-        e_scf = [round(-76.3 - 0.011 * k - 0.5 * cyc, 8) for k in range(3 + cyc)]
+        e_scf = [round(-76.3 - 0.011 * k - 0.5 * cyc, 8) for k in range((3 + cyc) if variant != "longscf" else 113)]   # the counter is I3
         for k, e in enumerate(e_scf):
             lines.append(f"{k:3d}   {e:13.8f} {e:14.10f}  0.000433  0.000433  0.001101  0.000179")
             if k == 0:
@@ -487,10 +500,9 @@ def w_qchemlog(m, lay, rng, variant):
     unres = variant == "unrestricted"
     ang = m.xyz
     nbasis = 5 + 2 * n
-    nel = sum(m.z)
-    na = (nel + (1 if (unres and nel % 2) else 0)) // 2
-    nb = nel - na
-    na, nb = min(na, nbasis - 1), min(nb, nbasis - 1)
+    # the numbers of alpha and beta electrons the file states (an open-shell system when unrestricted)
+    na = min(nbasis - 2, 3 + n)
+    nb = na - ((1 + n % 2) if unres else 0)
     lines = ["                  Welcome to Q-Chem", "$molecule", "0 1", "$end", "", "$rem", "ideriv                  2",
              f"jobtype                 {'freq' if variant == 'freq' else 'sp'}", "method                  hf",
              f"unrestricted            {1 if unres else 0}", "basis                   cc-pvtz", "symmetry                false", "$end", "",
@@ -530,7 +542,10 @@ def w_qchemlog(m, lay, rng, variant):
     lines += [f"{i + 1:7d} {sy:<2s}{q:29.6f}" + (f"{0.0:15.6f}" if unres else "") for i, (sy, q) in enumerate(zip(m.sym, charges))]
     lines += ["  " + "-" * (56 if unres else 40), "  Sum of atomic charges =    -0.000000", ""]
     exp = {"atnums": m.z, "atcoords": ang, "energy": energy, "atcharges.mulliken": charges, "extra.nuclear_repulsion_energy": nuc,
-           "mo.energies": ea + eb, "lot": "hf", "obasis_name": "cc-pvtz", "run_type": "freq" if variant == "freq" else "sp"}
+           "mo.energies": ea + eb, "lot": "hf", "obasis_name": "cc-pvtz", "run_type": "freq" if variant == "freq" else "sp",
+           # aufbau occupations from the electron counts printed above (restricted: doubly occupied levels count twice)
+           "mo.occs": ([1.0] * na + [0.0] * (nbasis - na) + [1.0] * nb + [0.0] * (nbasis - nb)) if unres else
+                      [float((k < na) + (k < nb)) for k in range(nbasis)]}
     if variant == "freq":
         d = 3 * n
         hess = np.array([[round((-1) ** (i + j) * (0.03 + 0.0013 * min(i, j) + 0.000017 * max(i, j)), 7) for j in range(d)] for i in range(d)])
@@ -699,10 +714,10 @@ WRITERS = {"xyz": w_xyz, "extxyz": w_extxyz, "sdf": w_sdf, "pdb": w_pdb, "gromac
            "poscar": w_poscar, "chgcar": w_chgcar, "locpot": w_locpot, "cube": w_cube, "fcidump": w_fcidump,
            "gaussianinput": w_gaussianinput, "json_qcschema": w_json, "fchk": w_fchk, "gaussianlog": w_gaussianlog,
            "orcalog": w_orcalog, "gamess": w_gamess, "qchemlog": w_qchemlog, "wfx": w_wfx}
-VARIANTS = {"xyz": ["plain", "numbers"], "poscar": ["direct", "cartesian", "selective", "scaled"], "cube": ["five", "ragged", "six", "one"],
-            "gromacs": ["rect", "triclinic"], "json_qcschema": ["plain", "massnumbers"], "gaussianlog": ["plain", "twoel"], "orcalog": ["plain", "opt"], "gamess": ["plain", "opt"],
+VARIANTS = {"xyz": ["plain", "numbers"], "poscar": ["direct", "cartesian", "selective", "scaled", "repeated"], "cube": ["five", "ragged", "six", "one", "nval"],
+            "gromacs": ["rect", "triclinic"], "json_qcschema": ["plain", "massnumbers"], "gaussianlog": ["plain", "twoel"], "orcalog": ["plain", "opt", "longscf"], "gamess": ["plain", "opt"],
             "qchemlog": ["plain", "unrestricted", "freq"], "wfx": ["plain", "gradient", "gradient_permuted"], "fchk": ["plain", "shuffled"],
-            "gaussianinput": ["plain", "route_units", "route_long"]}
+            "gaussianinput": ["plain", "route_units", "route_long"], "fcidump": ["plain", "upper"]}
 # coordinate digits written per format and the magnitude classes its columns can hold
 DIGITS = {"xyz": 8, "extxyz": 8, "sdf": 4, "pdb": 3, "gromacs": 3, "charmm": 5, "mol2": 4, "poscar": 8, "chgcar": 8, "locpot": 8, "cube": 6,
           "fcidump": 3, "gaussianinput": 8, "json_qcschema": 8, "fchk": 8, "gaussianlog": 6, "orcalog": 6, "gamess": 10, "qchemlog": 10, "wfx": 10}
